@@ -75,6 +75,39 @@ DIFFERENT += [
      "def f(x, acc=[]):\n    acc.append(x)\n    return acc\n"),
 ]
 
+DIFFERENT += [
+    ("duration drawn once per node vs once per edge inside a generator",
+     "def f(G, H, rt, tt):\n    for u in G.nodes():\n        d = rt(u)\n        H.add_node(u)\n        for v in G.neighbors(u):\n            if tt(u, v) <= d:\n                H.add_edge(u, v)\n",
+     "def f(G, H, rt, tt):\n    H.add_nodes_from(G.nodes())\n    H.add_edges_from((u, v) for u in G.nodes() for v in G.neighbors(u) if tt(u, v) <= rt(u))\n"),
+    ("one shared list for all keys (dict.fromkeys) vs a fresh list per key",
+     "def f(ks, t):\n    d = {}\n    for k in ks:\n        d[k] = [t]\n    return d\n",
+     "def f(ks, t):\n    return dict.fromkeys(ks, [t])\n"),
+    ("lambda binding a loop variable late vs value captured per iteration",
+     "def f(labels, G):\n    out = {}\n    for wl in labels:\n        out[wl] = G.adj[0][1][wl]\n    return out\n",
+     "def f(labels, G):\n    fs = {}\n    for wl in labels:\n        fs[wl] = lambda: G.adj[0][1][wl]\n    return {k: g() for k, g in fs.items()}\n"),
+    ("status written before vs after the neighbour loop (self-loop reads it)",
+     "def f(G, r, status, L):\n    status[r] = 'I'\n    for n in G.neighbors(r):\n        if status[n] == 'S':\n            L.update((r, n))\n        elif n != r:\n            L.remove((n, r))\n",
+     "def f(G, r, status, L):\n    for n in G.neighbors(r):\n        if status[n] == 'S':\n            L.update((r, n))\n        elif n != r:\n            L.remove((n, r))\n    status[r] = 'I'\n"),
+    ("continue that skips the tail of the loop body",
+     "def f(L, t, ch):\n    while L.tw() > 0:\n        n = L.choose()\n        s = ch(n)\n        L.insert(n, s)\n        t += random.expovariate(L.tw())\n    return t\n",
+     "def f(L, t, ch):\n    while L.tw() > 0:\n        n = L.choose()\n        s = ch(n)\n        if s == 0:\n            continue\n        L.insert(n, s)\n        t += random.expovariate(L.tw())\n    return t\n"),
+    ("early return before the weight is popped",
+     "def f(self, c):\n    self.items.pop()\n    if self.weighted:\n        w = self.weight.pop(c)\n        self.tw -= w\n        if len(self.items) == 0:\n            self.tw = 0\n",
+     "def f(self, c):\n    self.items.pop()\n    if not self.weighted:\n        return\n    if len(self.items) == 0:\n        self.tw = 0\n        return\n    w = self.weight.pop(c)\n    self.tw -= w\n"),
+    ("helper default argument that is a shared mutable object",
+     "def f(G, rf, status):\n    L = LD(True)\n    for u in G:\n        L.insert(u, rf(u, status))\n    return L\n",
+     "def f(G, rf, status, L=LD(True)):\n    for u in G:\n        L.insert(u, rf(u, status))\n    return L\n"),
+    ("zip truncates to the shorter list",
+     "def f(I, R, h):\n    while I:\n        h.append(I.pop(0))\n        if R:\n            h.append(R.pop(0))\n    return h\n",
+     "def f(I, R, h):\n    for a, b in zip(I, R):\n        h.append(a)\n        h.append(b)\n    return h\n"),
+    ("cached total read before the updates vs after",
+     "def f(c, n, w):\n    c.remove(n)\n    c.update(n, w)\n    if c.tw() < 1e-7 and c.tw() != 0:\n        c.resum()\n",
+     "def f(c, n, w):\n    t = c.tw()\n    c.remove(n)\n    c.update(n, w)\n    if t < 1e-7 and t != 0:\n        c.resum()\n"),
+    ("in-place += on the dict returned by a callback vs a local sum",
+     "def f(fx, a, time, Q):\n    d = fx(a)\n    for v in d:\n        Q.add(time + d[v], v)\n",
+     "def f(fx, a, time, Q):\n    d = fx(a)\n    for v in d:\n        d[v] += time\n        Q.add(d[v], v)\n"),
+]
+
 SAME = [
     ("guard clause vs nested if",
      "def f(s, t, L):\n    if s[t] == 'S':\n        s[t] = 'I'\n        L.append(t)\n",
